@@ -25,11 +25,11 @@ FEATURES = [(n, re.compile(rx, re.M)) for n, rx in [
     ("waitfor_false", r" ev ret waitfor 0$"),
     ("waitfor_true_slow", r"^(\d+) ev clock \d+\n(?:(?!\1 ev ret).*\n)*\1 ev ret waitfor 1$"),
     ("waitfor_max", r" ev call waitfor 9223372036854775807$"),
-    ("add_after_ready", r" rmw add futex acq 21474836\d\d 1$"),
+    ("mark_after_ready", r" rmw or futex acq 21474836\d\d 1$"),
     ("cb_by_setter", r"^(\d+) xchg futex .*\n(?:.*\n)*?\1 ev cb "),
     ("latch_fire", r" rmw sub count acqrel (\d+) \1$"),
 ]]
-INTERFERENCE = ("cas_lost_to_seal", "cas_retry", "slept", "eagain", "timeout_wake", "add_after_ready")
+INTERFERENCE = ("cas_lost_to_seal", "cas_retry", "slept", "eagain", "timeout_wake", "mark_after_ready")
 
 
 def warm():
@@ -93,10 +93,9 @@ def run(ctx):
         "vrt/vrt.cpp (TSan-ABI interposition, deterministic scheduler, virtual clock, futex emulation, vector-clock race monitor) and the TSan-instrumented build (differs from production in the places listed in DESIGN 3.3)",
         "executions are sequentially consistent interleavings at atomic-operation granularity; memory orders are tied statically (generated skeleton / order obligations, the model's happens-before ghost uses the generated orders) and dynamically (trace equality, HB race monitor on the value storage); weak-memory reorderings are not simulated",
         "kernel futex contract as modelled: FUTEX_WAIT sleeps only if the word equals the expected value, FUTEX_WAKE(INT32_MAX) wakes every sleeper, spurious wake-ups allowed; clock_gettime(CLOCK_MONOTONIC) succeeds, is monotone and stays below 2^63 ns",
-        "NoWrap: fewer than 2^31 slow-path waits (wait_slow / wait_for_slow fetch_add) on one future — the waiter count in the futex word is never decremented, after 2^31 increments it reaches READY_MASK (necessary hypothesis, see fut_wrap_counterexample and harness mode `wrap`)",
         "`then` is checked compositionally: it is an on_finish of a wrapping callback plus a set_value on a second, separately modelled promise; the chained future is checked by the harness oracle only",
     ]
-    ctx.assumptions += ["adds < 2^31 (NoWrap)", "client contract: set_value at most once per promise; count_down arguments >= 1 summing to at most the initial count"]
+    ctx.assumptions += ["client contract: set_value at most once per promise; count_down arguments >= 1 summing to at most the initial count"]
     ctx.gen(["future"])
     ctx.log("gen done")
     ctx.lake_build(["Babylon.Properties.C08"])
@@ -148,14 +147,10 @@ def run(ctx):
         if not _classify(ctx, what, env, runs, False, dist, distinct, samples, base):
             break
     ctx.log("view pass done")
-    # documented witness of the NoWrap hypothesis (not part of pass/fail): real code from the futex word reached after
-    # 2^31 - k timed-out wait_for calls
+    # regression for the fixed waiter-count carry (pre-fix code: ORACLE waitfor-true-unset / waiter-count-grows)
     wr = ctx.econc(exe, drv, ["wrap"], 1, 3)
-    ctx.cov["nowrap_witness"] = {"runs": len(wr), "real_code_reports_ready_without_value": sum(1 for r in wr if r["oracle"]),
-                                 "model_replay_ok": sum(1 for r in wr if r["replay"] and r["replay"].startswith("ok"))}
-    for r in wr:
-        if not (r["replay"] and r["replay"].startswith("ok")):
-            ctx.broke("correspondence", "E-CONC lock-step c08 wrap seed=%d" % r["seed"], "%s\n%s" % (r["replay"], "\n".join(r["lines"])))
+    dist["modes"]["wrap"] = len(wr)
+    _classify(ctx, "wrap", {}, wr, True, dist, distinct, samples, base)
     ctx.cov["distribution"] = dist
     ctx.cov["distinct_nontrivial"] = len(distinct)
     ctx.cov["traces_validated_against_impl"] = dist["replay_ok"]
@@ -164,7 +159,7 @@ def run(ctx):
                        "x 1-4 get / wait_for / ready with timeouts {-5, 0, 1 ns, 1 us, 1 s, nanoseconds::max()}; 0-3 registrant threads x 1-2 "
                        "on_finish / then; main after join: 0-2 registrations, get, wait_for, ready) under one seeded schedule (random with 5 stickiness "
                        "levels, PCT, or stick=0 with weak-CAS spurious failure 1/2); non-trivial = threads really interfered on the two words: a "
-                       "registration CAS failed (retry or lost to the sealing exchange), a waiter slept / got EAGAIN / timed out, or incremented the "
+                       "registration CAS failed (retry or lost to the sealing exchange), a waiter slept / got EAGAIN / timed out, or marked the "
                        "futex word after READY; distinct by trace hash")
     ctx.cov["samples"] = samples or [["<no sample>"]]
 
@@ -185,5 +180,5 @@ def replay(ctx, path):
 MANIFEST = {
     "technique": "Lean 4 proof (invariants over all interleavings of an atomic-granularity transition system with virtual clock and futex contract) + translator-generated skeleton/order/shape obligations + lock-step replay of real executions under a deterministic scheduler with virtual time + happens-before race monitor on the value storage",
     "text": "Theorems in lean/Babylon/Properties/C08.lean hold for every interleaving, thread count, timeout and call history of the model; each model step is one atomic operation / futex call / clock read of the real code, and every trace of the real Promise/Future/CountDownLatch produced under VRT is checked to be a path of the model (same operation, location, memory order, values, timeouts, callback order)",
-    "note": "Trusted: Lean kernel + 3 standard axioms; gen/future.py; vrt/ (scheduler, virtual time, futex emulation, TSan-ABI build); SC interleavings only (orders tied statically + HB ghost + race monitor); NoWrap hypothesis (< 2^31 slow-path waits per future); futex/clock contracts as modelled",
+    "note": "Trusted: Lean kernel + 3 standard axioms; gen/future.py; vrt/ (scheduler, virtual time, futex emulation, TSan-ABI build); SC interleavings only (orders tied statically + HB ghost + race monitor); futex/clock contracts as modelled",
 }
